@@ -458,6 +458,20 @@ pub fn run_c33(ctx: &Ctx) -> i32 {
                         let _ = UnspendableAccount::from_bytes(&b[..63]);
                         zeroize::Zeroize::zeroize(&mut b);
                     }
+                    20 => {
+                        // the public wrapper itself, handed a secret-bearing buffer that follows the documented contract
+                        // ("reserve the full capacity up front, never grow afterwards") but has spare capacity
+                        let cap = [8usize, 16, 7, 32][(tc % 4) as usize];
+                        let mut v: Vec<F> = Vec::with_capacity(cap);
+                        v.extend_from_slice(&[crate::cso::f(1), crate::cso::f(2), crate::cso::f(3)]);
+                        v.extend_from_slice(&secret);
+                        let sf = wormhole_circuit::sensitive::SensitiveFelts::new(v);
+                        if tc % 2 == 0 {
+                            felts.push(sf);
+                        } else {
+                            drop(sf);
+                        }
+                    }
                     19 => {
                         // unboxed temporaries: constructed and dropped on the stack
                         let n1 = Nullifier::from_preimage(sbd, tc);
